@@ -472,6 +472,13 @@ impl Prop for C03 {
             // one on the grid point itself, one off-grid
             let deep = visit + 2 >= clean_visits;
             let base_n = if deep { base_n * 10 } else { base_n };
+            // the on-grid deep visit of the three base samplers everything else is built on goes
+            // much deeper (5e7 draws quick, 1e8 thorough: bands 5.3e-4 / 3.7e-4)
+            let ultra = deep && visit + 2 == clean_visits
+                && matches!((*law, base.as_slice()), ("Normal", [m, s]) if *m == 0.0 && *s == 1.0)
+                || deep && visit + 2 == clean_visits && matches!((*law, base.as_slice()), ("Uniform", [a, b]) if *a == 0.0 && *b == 1.0)
+                || deep && visit + 2 == clean_visits && matches!((*law, base.as_slice()), ("Exponential", [l]) if *l == 1.0);
+            let base_n = if ultra { (base_n * 25).min(100_000_000) } else { base_n };
             let base_n = if *law == "MVN" { base_n / (4 * (base[0] as usize).max(4) / 4) } else { base_n };
             // bulk sizes: round numbers, non-round numbers, and multiples of a power-of-two block
             let n = match visit % 4 {
